@@ -35,10 +35,10 @@ RELEVANT = {
     "synced_list.py": ["C16", "C11", "C01", "C03", "C04", "C02", "C18", "C09", "C05", "C14", "C10"],
     "attr_dict.py": ["C11", "C18", "C03", "C01"],
     "collection_json.py": ["C01", "C17", "C12", "C08", "C10", "C18", "C09", "C14", "C02"],
-    "buffered_collection.py": ["C07", "C17", "C05", "C06", "C15", "C10", "C13", "C14"],
-    "file_buffered_collection.py": ["C07", "C17", "C05", "C06", "C15", "C10", "C13", "C08", "C14"],
-    "serialized_file_buffered_collection.py": ["C07", "C17", "C05", "C06", "C15", "C10", "C13", "C08", "C14", "C12"],
-    "memory_buffered_collection.py": ["C07", "C17", "C05", "C06", "C15", "C10", "C13", "C08", "C14"],
+    "buffered_collection.py": ["C07", "C17", "C15", "C05", "C06", "C10", "C13", "C14"],
+    "file_buffered_collection.py": ["C07", "C17", "C15", "C05", "C06", "C10", "C13", "C08", "C14"],
+    "serialized_file_buffered_collection.py": ["C07", "C17", "C15", "C05", "C06", "C10", "C13", "C08", "C14", "C12"],
+    "memory_buffered_collection.py": ["C07", "C17", "C15", "C05", "C06", "C10", "C13", "C08", "C14"],
     "utils.py": ["C11", "C12", "C19", "C07", "C05", "C15", "C10", "C01"],
     "validators.py": ["C11", "C12", "C19", "C01"],
 }
@@ -257,9 +257,10 @@ def cmd_tests(path, jobs):
     print("suite-surviving mutants:", len(surv), "of", len(doc["mutants"]))
 
 
-def cmd_checks(path, limit, allchecks=False, maxchecks=0):
+def cmd_checks(path, limit, allchecks=False, maxchecks=0, files=None):
     doc = json.load(open(path))
-    surv = [m for m in doc["mutants"] if m.get("tests") == "pass" and "killed_by" not in m]
+    surv = [m for m in doc["mutants"] if m.get("tests") == "pass" and "killed_by" not in m
+            and (not files or any(f in m["file"] for f in files))]
     if limit:
         surv = surv[:limit]
     wt = mkwt("ms_checks")
@@ -320,4 +321,5 @@ if __name__ == "__main__":
         cmd_tests(a[1], int(a[a.index("-j") + 1]) if "-j" in a else 12)
     elif a[0] == "checks":
         cmd_checks(a[1], int(a[a.index("--limit") + 1]) if "--limit" in a else 0, "--all" in a,
-                   int(a[a.index("--max-checks") + 1]) if "--max-checks" in a else 0)
+                   int(a[a.index("--max-checks") + 1]) if "--max-checks" in a else 0,
+                   a[a.index("--files") + 1].split(",") if "--files" in a else None)
